@@ -4,8 +4,9 @@ E4 fault / crash-point enumeration on the real `gwf run`:
   * faults: the k-th scheduler command of the run (state queries and every submission) x {non-zero exit, exit 0 with
     'error:' on stderr, exit 0 with garbage stdout, exit 0 with empty stdout}; the simulator creates no job in any of them;
     plus a Python exception raised inside the k-th command;
+  * write faults: the k-th file the run opens for writing (state files, script copies) fails with ENOSPC;
   * crash snapshots: the persistent state (project directory + scheduler) exactly as `kill -9` would leave it before and
-    after every scheduler command and at open / every write / close of each state-file write (Python-level buffered but
+    after every scheduler command and at open / every write / close / the publishing rename of each state-file write (Python-level buffered but
     unflushed bytes are lost because the snapshot copies what is on disk at that instant).
 Every faulted outcome / snapshot becomes the initial state of follow-up `gwf status` and `gwf run`:
   (a) both start normally (exit 0, no traceback);
@@ -189,6 +190,30 @@ def faults_batch(acc, batch):
                 w1.normalize()
                 acc.case(key=json.dumps(dict(meta=meta, **case), sort_keys=True), outcome=f"fault {exe} {kind} exit={r.exit_code} crash={r.crashed()}", sample=dict(meta=meta, **case))
                 followups(acc, w1, base, case, meta, init_hash_names)
+        # an exception at a file-system write: the k-th file gwf opens for writing during the run (state files, the script
+        # copies some backends keep) cannot be created (ENOSPC)
+        with W.Session(base.copy()) as s:
+            s.file_hook = lambda event, path: None
+            s.gwf(["run"])
+            opens = list(s.write_opens)
+        active_base = {j["name"] for j in base.sim["jobs"].values() if j["user"] == "me" and j["state"] in simsched.ACTIVE}
+        for k, path in enumerate(opens):
+            fname = path.rsplit("/", 1)[-1]
+            fname = fname.split(".tmp")[0] if ".tmp" in fname else fname
+            case = dict(kind="fault", idx=k, exe="open:" + fname, fault="enospc")
+            with W.Session(base.copy()) as s:
+                s.file_fault_at = k
+                r = s.gwf(["run"])
+                acc.extra["invocations"] += 1
+                in_run = [e["name"] for e in s.sim.journal_submits()]
+                w1 = s.snapshot()
+            dup_now = sorted(set(in_run) & active_base)
+            if dup_now:
+                acc.violation(sig=dict(what="the faulted run itself submitted a second job for a target whose accepted job is still pending/running", backend=meta["backend"], kind="fault", exe=case["exe"], fault="enospc"),
+                              case=dict(meta=meta, **case), observed=dict(duplicated=dup_now, submitted=in_run), msg=f"[{meta}] {case}: duplicated {dup_now}")
+            w1.normalize()
+            acc.case(key=json.dumps(dict(meta=meta, **case), sort_keys=True), outcome=f"fault open {fname.split('.')[-1]} exit={r.exit_code} crash={r.crashed()}", sample=dict(meta=meta, **case))
+            followups(acc, w1, base, case, meta, init_hash_names)
 
 
 def crash_batch(acc, batch):
@@ -328,7 +353,7 @@ def run(ctx):
     ctx.pmap(me, "local_batch", [dict(wf=wf, backend="local", init=init) for wf in ("chain", "fork") for init in ("fresh", "inflight")], chunk=1)
     ctx.rule = ("case = (scenario, interaction index, fault kind) or (scenario, crash point: before/after a scheduler command, open/write/close of a state file); "
                 "each followed by `gwf status` and `gwf run` on the resulting state")
-    ctx.bound = dict(scenarios=len(sc), fault_kinds=list(FAULT_KINDS), crash_points="before/after every scheduler command; open, every write, close of every state-file write")
+    ctx.bound = dict(scenarios=len(sc), fault_kinds=list(FAULT_KINDS), crash_points="before/after every scheduler command; open, every write, close, rename of every state-file write", write_faults="every open-for-writing of the run fails with ENOSPC")
     ctx.assumptions = ["kill = process death (page cache survives; Python buffers do not)", "a failing scheduler command creates no job (all four kinds)", "scheduler simulators"]
 
 
